@@ -63,19 +63,25 @@ type env20 struct {
 
 func newEnv20(sc *sim.Scenario) (*env20, string) {
 	e := &env20{shared: map[int]tensor.Tensor{}, tracked: map[int]bool{}}
+	setup := sim.NewPool()
 	for _, st := range sc.Steps {
 		if st.C != sharedClient {
 			continue
 		}
-		if st.Op != "tensorof" || st.Out < 0 || st.Out >= 1000 {
+		if st.Out < 0 || st.Out >= 1000 || !(st.Op == "tensorof" || sim.IsTensorOp(st.Op)) {
 			return nil, "malformed"
 		}
-		res := sim.ApplyOn(st, nil)
+		// shared tensors are leaves (tensorof) or results the main goroutine
+		// derived from untracked shared leaves before the tasks start
+		res := setup.Apply(st)
 		if res.Err != nil || res.T == nil {
+			if _, d := res.Err.(sim.ErrDangling); d {
+				return nil, "dangling"
+			}
 			return nil, "malformed"
 		}
 		e.shared[st.Out] = res.T
-		e.tracked[st.Out] = st.B
+		e.tracked[st.Out] = st.Op == "tensorof" && st.B
 		e.ids = append(e.ids, st.Out)
 	}
 	if o := sc.CfgInt("fcout"); o > 0 {
@@ -352,6 +358,58 @@ func (c20) Generate(r *sim.Rand, tier string) *sim.Scenario {
 		sc.Steps = append(sc.Steps, sim.Step{C: sharedClient, Op: "tensorof", Out: sid, I: cpI(shape), F: randData(r, sim.NElems(shape), false), B: tracked})
 		sid++
 	}
+	// shared tensors derived by the main goroutine from untracked shared data
+	// (results of reductions, reshapes, products ... have other internal
+	// layouts than freshly constructed leaves)
+	var derived []int
+	if r.Bool(0.5) {
+		sh := sim.NewPool()
+		var av []avail
+		for _, st := range sc.Steps {
+			if st.C == sharedClient && !st.B {
+				res := sh.Apply(st)
+				av = append(av, avail{st.Out, res.T.Shape()})
+			}
+		}
+		// a rank-4 base so that reductions along inner dimensions occur
+		b4 := sim.Step{C: sharedClient, Op: "tensorof", Out: sid, I: []int{2, r.Range(1, 2), r.Range(2, 3), r.Range(2, 3)}}
+		b4.F = randData(r, sim.NElems(b4.I), false)
+		sc.Steps = append(sc.Steps, b4)
+		res := sh.Apply(b4)
+		av = append(av, avail{sid, res.T.Shape()})
+		sid++
+		od := genOpts{MaxElems: 40, MaxRank: 5, MaxDim: 3, Comparison: true, PSynth: 0, PTracked: 0, Client: sharedClient,
+			Weights: map[string]int{"along": 6, "shape": 3, "reshape": 2, "slice": 2, "arith": 2, "matmul": 2, "dot": 1, "broadcast": 1, "concat": 1, "patch": 1, "unary": 1, "scale": 1, "pow": 0, "elmm": 1, "cmp": 1}}
+		// always one reduction of the rank-4 base along a random dimension
+		{
+			ops := []string{"sumalong", "maxalong", "avgalong", "meanalong", "minalong"}
+			st := sim.Step{C: sharedClient, Op: ops[r.Intn(len(ops))], In: []int{b4.Out}, I: []int{r.Intn(4)}, Out: sid}
+			if res := sh.Apply(st); res.Err == nil && res.T != nil {
+				sc.Steps = append(sc.Steps, st)
+				av = append(av, avail{st.Out, res.T.Shape()})
+				derived = append(derived, st.Out)
+				sid++
+			}
+		}
+		nd := r.Range(1, 3)
+		for k, tries := 0, 0; k < nd && tries < 20; tries++ {
+			x := av[r.Intn(len(av))]
+			ida := &idAlloc{next: sid}
+			ps := propose(r, ida, av, x, &od)
+			if len(ps) != 1 || ps[0].Out >= 1000 {
+				continue
+			}
+			res := sh.Apply(ps[0])
+			if res.Err != nil || res.T == nil {
+				continue
+			}
+			sc.Steps = append(sc.Steps, ps[0])
+			av = append(av, avail{ps[0].Out, res.T.Shape()})
+			derived = append(derived, ps[0].Out)
+			sid = ida.next
+			k++
+		}
+	}
 	// "big" flavour: shared tensors large enough for size-triggered code paths
 	// (a 32..40 square matrix: m*n*k >= 2^15; a matrix of >= 4096 elements)
 	big := r.Bool(c20BigP)
@@ -426,6 +484,18 @@ func (c20) Generate(r *sim.Rand, tier string) *sim.Scenario {
 			av = append(av, avail{st.Out, t.Shape()})
 		}
 		n := r.Range(3, maxSteps)
+		if len(derived) > 0 && r.Bool(0.4) {
+			// a shape operation on one of the derived shared tensors
+			id := derived[r.Intn(len(derived))]
+			od := genOpts{MaxElems: 60, MaxRank: 5, MaxDim: 4, Client: tk, Weights: map[string]int{"shape": 8, "reshape": 3, "broadcast": 2, "along": 2, "slice": 1, "unary": 0, "scale": 1, "pow": 0, "patch": 0, "concat": 0, "arith": 1, "elmm": 0, "dot": 0, "matmul": 0}}
+			ps := propose(r, ids, usable(), avail{id, shapes[id]}, &od)
+			if len(ps) == 1 {
+				if res := pool.Apply(ps[0]); res.Err == nil && res.T != nil {
+					record(ps[0], res.T, ps[0].In)
+					steps = append(steps, ps[0])
+				}
+			}
+		}
 		if big {
 			// few, heavy steps on the large shared tensors
 			n = r.Range(1, 3)
@@ -860,6 +930,10 @@ func (prop c20) Execute(sc *sim.Scenario) *sim.Outcome {
 		out.Probes["stage-A-not-run-foreign-goroutine"]++
 		out.Discard = "library-goroutines"
 		return out
+	}
+	if s.OraclePanic != nil {
+		out.Fail("shared-state-corrupt", "reading the shared tensors at a context switch panicked (a tensor another task can see was left inconsistent by a task that was switched out): %v", s.OraclePanic)
+		return fin()
 	}
 	if blame != "" {
 		out.Fail("shared-state-changed", "%s", blame)
